@@ -21,8 +21,10 @@
      (Path("") is Path(".")), the harness uses strings in pathlib normal form.
    * a raised exception is  Err  (the property only says "raises").
    * ObjectType.validate(None) returns None in the code at the pinned commit,
-     so that List[A] silently stores [None]; the flag none_ok = true gives that
-     literal behaviour (validate_prefix), none_ok = false the repaired one.      *)
+     so that List[A] silently stores [None], and BoolType.validate is bool(value)
+     for any value, so that Param[bool] given "no" or ["x"] silently stores True;
+     the flag none_ok = true gives that literal behaviour (validate_prefix),
+     none_ok = false the repaired one (fixes/C15-3, fixes/C15-5).               *)
 From Coq Require Import ZArith List Bool String.
 Import ListNotations.
 Open Scope Z_scope.
@@ -233,7 +235,9 @@ Fixpoint validate_gen (none_ok : bool) (cl : classes) (t : tyexp) (v : value) : 
       | VBool b => Ok (VFloat (FInt (if b then 1 else 0)))
       | _ => Err
       end
-  | TBool => Ok (VBool (truthy v))            (* BoolType.validate: bool(value) *)
+  | TBool =>                                  (* BoolType.validate *)
+      if none_ok then Ok (VBool (truthy v))   (* literal: bool(value), for ANY value *)
+      else match v with VBool b => Ok (VBool b) | _ => Err end   (* repaired (fixes/C15-5) *)
   | TStr => match v with VStr s => Ok (VStr s) | _ => Err end
   | TPath =>                                  (* PathType.validate *)
       match v with
@@ -288,7 +292,7 @@ Fixpoint validate_gen (none_ok : bool) (cl : classes) (t : tyexp) (v : value) : 
       end
   end.
 
-Definition validate := validate_gen false.          (* repaired (fixes/C15-3) *)
+Definition validate := validate_gen false.          (* repaired (fixes/C15-3, fixes/C15-5) *)
 Definition validate_prefix := validate_gen true.    (* literal, pinned commit *)
 
 (* "v is an instance of the declared type" (Python isinstance semantics: a bool
@@ -335,6 +339,28 @@ Fixpoint coerced (cl : classes) (t : tyexp) (v v' : value) : Prop :=
         Forall2 (fun p p' => coerced cl tk (fst p) (fst p') /\ coerced cl tv (snd p) (snd p')) ps ps' /\
         distinct_keys (map fst ps')
   | _ => ht cl t v /\ v' = v
+  end.
+
+(* What validate accepts BESIDE the documented coercions, listed: a value that is
+   accepted is the given value up to the documented coercions unless one of these
+   occurs somewhere in it (proofs: validate_explained).
+   - a bool where a float is expected: float(True) = 1.0 (a bool is an int in Python
+     - as for Param[int], which keeps True - and int -> float is documented);
+   - a dict where a path is expected: the serialised form {"$type": "path", ...};
+   - dict keys that become equal once validated: the entries collapse.            *)
+Definition keys_collapse (f : value -> result value) (ks : list value) : Prop :=
+  exists ks', Forall2 (fun k k' => f k = Ok k') ks ks' /\ ~ distinct_keys ks'.
+
+Fixpoint odd (cl : classes) (t : tyexp) (v : value) : Prop :=
+  match t with
+  | TFloat => exists b, v = VBool b
+  | TPath => exists ps, v = VDict ps
+  | TList t' => exists l, v = VList l /\ Exists (odd cl t') l
+  | TDict tk tv =>
+      exists ps, v = VDict ps /\
+        (Exists (fun p => odd cl tk (fst p) \/ odd cl tv (snd p)) ps \/
+         keys_collapse (validate cl tk) (map fst ps))
+  | _ => False
   end.
 
 (* ------------------------------------------------- ConfigInformation.set/get *)
@@ -595,8 +621,8 @@ Inductive reach (ob : value -> list nat) (cl : classes) (h : heap) : nat -> nat 
 (* ------------------------------------------------ sessions: histories of operations *)
 (* What a script does with a set of configuration objects: assignments, submits and
    validations in any order.  The job flag of an object (`__xpm__.job`) is set by its
-   own submit BEFORE validation and stays set when validation raises; it is what
-   ObjectType.validate looks at ("must be submitted before giving it") when a task is
+   own submit BEFORE validation (literal code: and stays set when validation raises;
+   repaired: it is dropped again); it is what ObjectType.validate looks at ("must be submitted before giving it") when a task is
    given as a parameter value - and it plays no role in the validation walk: a task
    that "has a job" is walked like any other configuration.                          *)
 Record session := {
@@ -630,21 +656,40 @@ Fixpoint upd_nth {A : Type} (l : list A) (i : nat) (x : A) : list A :=
 Definition set_init (n : node) (init : list nat) : node :=
   {| n_cls := n_cls n; n_fields := n_fields n; n_pre := n_pre n; n_init := init; n_sealed := n_sealed n |}.
 
+(* submit, step by step.  The states the objects and the scheduler go through:
+     s --[init tasks set, job created]--> s1 --[validation]--> registered | rolled back
+   `rollback = true` is the repaired code (fixes/C15-4): when validation raises, the
+   job is dropped and the init tasks are restored; `rollback = false` is the code as
+   it is at 5d2cab3: the job (and the init tasks) stay.  Registration is a step of
+   its own, taken only after validation answered VOk.                              *)
+Definition begin_submit (s : session) (root : nat) (n : node) (init : list nat) : session :=
+  {| s_heap := upd_nth (s_heap s) root (set_init n init);      (* self.init_tasks = init_tasks *)
+     s_jobs := root :: s_jobs s;                               (* self.job = self.xpmtype.task(...) *)
+     s_reg := s_reg s |}.
+Definition register (s : session) (root : nat) : session :=      (* experiment.CURRENT.submit(self.job) *)
+  {| s_heap := s_heap s; s_jobs := s_jobs s; s_reg := s_reg s ++ [root] |}.
+
+Definition submit_trace (rollback : bool) (cl : classes) (s : session) (root : nat) (init : list nat)
+  : list session * verdict :=
+  match nth_error (s_heap s) root with
+  | None => ([], Rejected)
+  | Some n =>
+      if mem root (s_jobs s) || negb (class_task cl (n_cls n))
+      then ([], Rejected)                       (* "already submitted" / "is not a task" *)
+      else
+        let s1 := begin_submit s root n init in
+        match cfg_validate cl (s_heap s1) root with
+        | Some (VOk _) => ([s1; register s1 root], Accepted)
+        | Some (VErr _) => ([s1; if rollback then s else s1], Rejected)
+        | None => ([s1], OutOfFuel)
+        end
+  end.
+
 (* one operation; the verdict is Rejected when the call raises *)
-Definition sess_step (cl : classes) (s : session) (o : op) : session * verdict :=
+Definition sess_step_gen (rollback : bool) (cl : classes) (s : session) (o : op) : session * verdict :=
   match o with
   | OSubmit root init =>
-      match nth_error (s_heap s) root with
-      | None => (s, Rejected)
-      | Some n =>
-          if mem root (s_jobs s) || negb (class_task cl (n_cls n))
-          then (s, Rejected)                    (* "already submitted" / "is not a task" *)
-          else
-            let h' := upd_nth (s_heap s) root (set_init n init) in   (* self.init_tasks = init_tasks *)
-            let jobs' := root :: s_jobs s in                         (* self.job = ... *)
-            let '(reg', v) := submit cl h' (s_reg s) root in         (* validate, then register *)
-            ({| s_heap := h'; s_jobs := jobs'; s_reg := reg' |}, v)
-      end
+      let '(tr, v) := submit_trace rollback cl s root init in (last tr s, v)
   | OValidate root =>
       (s, match cfg_validate cl (s_heap s) root with
           | Some (VOk _) => Accepted
@@ -662,6 +707,8 @@ Definition sess_step (cl : classes) (s : session) (o : op) : session * verdict :
           end
       end
   end.
+Definition sess_step := sess_step_gen true.            (* repaired (fixes/C15-4) *)
+Definition sess_step_prefix := sess_step_gen false.    (* literal *)
 
 Fixpoint sess_run (cl : classes) (s : session) (ops : list op) : session :=
   match ops with
